@@ -18,8 +18,10 @@ def _sorted_unique(batch):
   return True
 
 
-def _store_step(mod, strat, b0, b1, b2, b3, pv, ghost, mi, ti, v):
+def _store_step(mod, strat, b0, b1, b2, b3, pv, ghost, mi, ti, v, full):
   cache = L.build(mod, strat, [b0, b1, b2, b3], [pv, pv + 1, pv + 2, pv + 3], ghost)
+  if full and cache.size >= 1:
+    L.apply_limits(cache.size, False)                # the cache sits exactly at its hard limit
   metric, ts = L.METRICS[mi], L.STAMPS[ti]
   before = L.contents(cache)
   size0 = cache.size
@@ -27,6 +29,10 @@ def _store_step(mod, strat, b0, b1, b2, b3, pv, ghost, mi, ti, v):
   cache.store(metric, (ts, v))
   after = L.contents(cache)
   expect = dict((m, dict(d)) for m, d in before.items())
+  if full and size0 >= 1 and not existed:
+    cover('refused')                                 # not accepted: nothing may change (C10 checks the signalling)
+    return (dict((m, d) for m, d in after.items() if d) == expect and cache.size == size0
+            and cache.size == L.held(cache) + ghost)
   expect.setdefault(metric, {})[ts] = v              # last write wins, nothing else changes
   cover('update' if existed else 'insert')
   return (after == expect and cache.size == size0 + (0 if existed else 1)
@@ -35,18 +41,18 @@ def _store_step(mod, strat, b0, b1, b2, b3, pv, ghost, mi, ti, v):
 
 
 def C02_store_step(strat: int, b0: bool, b1: bool, b2: bool, b3: bool, pv: int, ghost: int,
-                   mi: int, ti: int, v: int) -> bool:
+                   mi: int, ti: int, v: int, full: bool) -> bool:
   """
   pre: 0 <= strat <= 6
   pre: ghost >= 0
   pre: 0 <= mi <= 2 and 0 <= ti <= 2
   post: __return__
   """
-  return _store_step(L.SHADOW, strat, b0, b1, b2, b3, pv, ghost, mi, ti, v)
+  return _store_step(L.SHADOW, strat, b0, b1, b2, b3, pv, ghost, mi, ti, v, full)
 
 
-def replay_store_step(strat, b0, b1, b2, b3, pv, ghost, mi, ti, v):
-  return _store_step(L.real_cache, strat, b0, b1, b2, b3, pv, ghost, mi, ti, v)
+def replay_store_step(strat, b0, b1, b2, b3, pv, ghost, mi, ti, v, full):
+  return _store_step(L.real_cache, strat, b0, b1, b2, b3, pv, ghost, mi, ti, v, full)
 
 
 def _drain_step(mod, strat, b0, b1, b2, b3, pv, ghost, rnd):
@@ -201,8 +207,8 @@ _ASSUME = ['inductive step from a pre-state built by real store() calls: symboli
 
 HARNESSES = [
   H('C02_store_step', quick=dict(timeout=200, shards=_S), thorough=dict(timeout=600, shards=_S),
-    covers=['update', 'insert'], replay='replay_store_step',
-    encodes=['carbon.cache:_MetricCache.store', 'carbon.cache:_MetricCache.get_datapoints', 'carbon.cache:BucketMaxStrategy.store'],
+    covers=['update', 'insert', 'refused'], replay='replay_store_step',
+    encodes=['carbon.cache:_MetricCache.store (also with the cache exactly at CACHE_SIZE_HARD_MAX: an update still wins, a new datapoint changes nothing)', 'carbon.cache:_MetricCache.get_datapoints', 'carbon.cache:BucketMaxStrategy.store'],
     assumptions=_ASSUME),
   H('C02_drain_step', quick=dict(timeout=200, shards=_S), thorough=dict(timeout=600, shards=_S),
     covers=['empty', 'drained'], replay='replay_drain_step',
